@@ -52,9 +52,9 @@ def splitSegs : List (Entry Int) → List Nat → Option (List (List (Entry Int)
     if n ≤ l.length then (splitSegs (l.drop n) ns).map (fun r => l.take n :: r) else none
 
 /-- per-segment `TopNHeap`, fruits in heap (here: sorted) order, then `merge_top_k` -/
-def scoreSearch (gt : Int → Int → Bool) (sel : List (Entry Int) → List (Entry Int)) (K O : Nat)
+def scoreSearch (gt : Int → Int → Bool) (_sel : List (Entry Int) → List (Entry Int)) (K O : Nat)
     (segs : List (List (Entry Int))) : List (Entry Int) :=
-  mergeTopK gt sel K O (segs.map fun d => (d.foldl (heapPush gt) (Heap.new (O + K))).heap)
+  mergeTopK gt K O (segs.map fun d => (d.foldl (heapPush gt) (Heap.new (O + K))).heap)
 
 /-- callback policies of the correspondence run (thresholds never decrease) -/
 structure CbState where
